@@ -1,10 +1,8 @@
 (* C14 — accepted input yields a well-formed, reproducible expansion.
-   (Uniqueness of the ids themselves and independence from earlier invocations are
-   statements about the parser's counter; they are in the second half of this file
-   once Model/Parser.v is in the build, and are checked on the real parser by the
-   correspondence run meanwhile.) *)
-From ASModel Require Import Base Tokens Report Ast IR Expand Nodes.
-From ASProofs Require Import PatInd NodesP.
+   First half: the node table generated from a Pattern tree.  Second half: the ids themselves
+   (the parser's thread-local counter), for every token list, fuel and behaviour of syn's parsers. *)
+From ASModel Require Import Base Tokens Report Ast IR Expand Nodes Parser FrontEnd.
+From ASProofs Require Import PatInd NodesP IdsP.
 
 (* one constant per node, in post-order: the ids defined are exactly the ids of the
    tree (a `..` inside a slice is a flag of its parent, not a node) *)
@@ -40,3 +38,33 @@ Theorem c14_parent_links : forall j p parent c,
                       n_id nd = pat_id c /\ n_parent nd = Some (pat_id p).
 Proof. exact gen_nodes_child_parent. Qed.
 Print Assumptions c14_parent_links.
+
+(* ---- the ids (Parser.v) ---------------------------------------------------------------- *)
+
+(* the nodes of every accepted tree have pairwise distinct ids: the counter only grows, through
+   speculative parses (fork) and failed parses too, and every node takes a fresh value *)
+Theorem c14_ids_distinct : forall regex join_ok parse_expr parse_path parse_closure fuel start ts v p,
+  parse_top_from regex join_ok parse_expr parse_path parse_closure fuel start ts = TOk v p -> NoDup (node_ids p).
+Proof. exact parsed_ids_distinct. Qed.
+Print Assumptions c14_ids_distinct.
+
+(* hence every node is defined exactly once: the generated constants have pairwise distinct names *)
+Theorem c14_defined_exactly_once : forall regex join_ok parse_expr parse_path parse_closure fuel start ts v p parent,
+  parse_top_from regex join_ok parse_expr parse_path parse_closure fuel start ts = TOk v p ->
+  NoDup (map n_id (gen_nodes join_ok p parent)).
+Proof. exact node_constants_distinct. Qed.
+Print Assumptions c14_defined_exactly_once.
+
+(* the counter never decreases, whatever the outcome of a (possibly speculative) pattern parse *)
+Theorem c14_counter_monotone : forall regex join_ok parse_expr parse_path parse_closure f,
+  cmono (p_pattern regex join_ok parse_expr parse_path parse_closure f).
+Proof. exact cmono_p_pattern. Qed.
+Print Assumptions c14_counter_monotone.
+
+(* the expansion is a function of the invocation's tokens alone: whatever value earlier invocations on the
+   thread left in the counter (accepted, rejected, or abandoned half-way), the result is the same *)
+Theorem c14_history_independent : forall regex join_ok parse_expr parse_path parse_closure c1 c2 ts,
+  front_end_from regex join_ok parse_expr parse_path parse_closure c1 ts =
+  front_end_from regex join_ok parse_expr parse_path parse_closure c2 ts.
+Proof. exact front_end_history_independent. Qed.
+Print Assumptions c14_history_independent.
